@@ -24,11 +24,32 @@ ASSUMPTIONS = ["header-name case, chunk boundaries, wsgi.errors target and SERVE
 MIN_DECISIVE = {"call-once": 50, "off-loop": 50, "environ": 50, "response": 50, "close-once": 20, "size-limit": 20, "websocket-refused": 5}
 N = {"quick": 4000, "thorough": 40000}
 
-SHAPES = ["list", "tuple", "generator", "lazy_generator", "iter_close", "lazy_iter_close", "iterable_close_gen", "iterable_close_list",
+SHAPES = ["list", "tuple", "generator", "lazy_generator", "iter_close", "lazy_iter_close", "iterable_close_gen", "iterable_close_list", "write_callable",
           "raise_before", "raise_after", "no_start"]
 
 
+def _gen_extra(rng, tier):
+    """(a) a path that begins with the characters of root_path but not at a segment boundary (/appx/... under root_path /app) is not under
+    it: the application is either not called or called with a PATH_INFO that starts with '/'; (b) a request whose body the client cut
+    short (EOF before Content-Length was reached): the application is not handed a wsgi.input shorter than its CONTENT_LENGTH."""
+    for k in range(8 if tier == "quick" else 100):
+        i = 9000000 + k
+        for be in ("asyncio", "trio"):
+            root = rng.choice(["/app", "/api/v1"])
+            path = (root + rng.choice(["x", "-old", "2"]) + "/t%d" % i).encode()
+            yield {"family": "root-boundary", "backends": [be], "config": {"keep_alive_timeout": 5000, "root_path": root}, "conn": {},
+                   "wsgi": {"shape": "list", "status": "200 OK", "headers": [("X-W", "v")], "chunks": [b"ok"], "max_body": 65536, "via": "wrapper"}, "apps": {},
+                   "client": [["feed", b"GET %s HTTP/1.1\r\nHost: h\r\n\r\n" % path], ["settle"]],
+                   "truth": {"kind": "root-boundary", "root": root, "path": path.decode()}, "sched": {"seed": rng.randrange(1 << 30)}, "horizon": 30.0}
+            cl, sent = rng.choice([(10, 4), (10, 0), (100, 99), (3, 1)])
+            yield {"family": "cut-body", "backends": [be], "config": {"keep_alive_timeout": 5000}, "conn": {},
+                   "wsgi": {"shape": "list", "status": "200 OK", "headers": [("X-W", "v")], "chunks": [b"ok"], "max_body": 65536, "via": "wrapper"}, "apps": {},
+                   "client": [["feed", b"POST /t%d HTTP/1.1\r\nHost: h\r\nContent-Length: %d\r\n\r\n" % (i, cl) + b"b" * sent], ["settle"], ["eof"], ["settle"]],
+                   "truth": {"kind": "cut-body", "cl": cl, "sent": sent}, "sched": {"seed": rng.randrange(1 << 30)}, "horizon": 30.0}
+
+
 def gen(rng, tier):
+    yield from _gen_extra(rng, tier)
     for i in range(N[tier]):
         if rng.random() < 0.05:
             yield {"family": "websocket", "backends": ["asyncio", "trio"], "config": {"keep_alive_timeout": 5000}, "conn": {},
@@ -79,6 +100,8 @@ def gen(rng, tier):
         via = rng.choice(["wrapper", "wrapper", "middleware"])
         spec = {"shape": shape, "status": status, "headers": rh, "chunks": chunks, "raise_at": raise_at, "max_body": limit, "via": via}
         config = {"keep_alive_timeout": 5000, "root_path": root_cfg, "wsgi_max_body_size": limit}
+        if version != "2" and rng.random() < 0.2:
+            config["h11_pass_raw_headers"] = True  # header names reach the adapter as the client spelled them
         truth = {"kind": "http", "req": req, "shape": shape, "status": status, "headers": rh, "chunks": chunks, "raise_at": raise_at,
                  "limit": limit, "root": root, "version": version}
         if version == "2":
@@ -140,6 +163,24 @@ def check(case, obs, tally):
     calls = rec.get("calls", [])
     if obs.handler == "exception":
         out.append({"clause": "call-once", "sig": "C17.handler-crashed", "detail": (obs.handler_exc or "")[-500:]})
+        return out
+    if t["kind"] == "root-boundary":
+        tally.clause("environ")
+        for c_ in calls:
+            pi = c_["environ"].get("PATH_INFO", "")
+            if not pi.startswith("/"):
+                out.append({"clause": "environ", "sig": "C17.environ/path-split-inside-segment",
+                            "detail": "root_path %r, request path %r: the application was called with SCRIPT_NAME %r PATH_INFO %r" % (
+                                t["root"], t["path"], c_["environ"].get("SCRIPT_NAME"), pi)})
+        return out
+    if t["kind"] == "cut-body":
+        tally.clause("environ")
+        for c_ in calls:
+            inp = c_["input"] if isinstance(c_["input"], bytes) else b""
+            if str(len(inp)) != c_["environ"].get("CONTENT_LENGTH"):
+                out.append({"clause": "environ", "sig": "C17.environ/wsgi.input-truncated",
+                            "detail": "the client sent %d of %d body bytes and closed: the application was called with CONTENT_LENGTH %r and a wsgi.input of %d bytes" % (
+                                t["sent"], t["cl"], c_["environ"].get("CONTENT_LENGTH"), len(inp))})
         return out
     if t["kind"] == "websocket":
         tally.clause("websocket-refused")
